@@ -149,6 +149,57 @@ theorem C19_windows_hash_distinct (period t t' : Nat) (ht : t < 2 ^ 64) (ht' : t
   exact h (counterBytes_injective _ _ (Nat.lt_of_le_of_lt (Nat.div_le_self _ _) ht)
     (Nat.lt_of_le_of_lt (Nat.div_le_self _ _) ht') e)
 
+/-- four consecutive bytes of a list, by `drop`/`take` and by index -/
+theorem drop_take4 (l : Bytes) (k : Nat) (h : k + 3 < l.length) :
+    (l.drop k).take 4 = [l.getD k 0, l.getD (k + 1) 0, l.getD (k + 2) 0, l.getD (k + 3) 0] := by
+  induction k generalizing l with
+  | zero =>
+    match l, h with
+    | a :: b :: c :: d :: rest, _ => simp
+  | succ k ih =>
+    match l, h with
+    | x :: l', h =>
+      have h' : k + 3 < l'.length := by simp at h; omega
+      have := ih l' h'
+      simp only [List.drop_succ_cons, this]
+      have e2 : k + 1 + 2 = (k + 2) + 1 := by omega
+      have e3 : k + 1 + 3 = (k + 3) + 1 := by omega
+      rw [e2, e3]
+      simp
+
+/-- **dynamic truncation is RFC 4226 §5.3**: on a hash of at least 20 bytes (SHA-1/256/512) the value is
+    the four bytes at the offset named by the low nibble of the last byte, big endian, top bit masked -/
+theorem dynTrunc_spec (h : Bytes) (hl : 20 ≤ h.length) :
+    dynTrunc h = beVal ((h.drop ((h.getLastD 0).toNat % 16)).take 4) % 2 ^ 31 := by
+  have : (h.getLastD 0).toNat % 16 < 16 := Nat.mod_lt _ (by decide)
+  rw [drop_take4 h _ (by omega)]
+  simp only [dynTrunc, beVal, List.foldl]
+  have a := UInt8.toNat_lt (h.getD ((h.getLastD 0).toNat % 16) 0)
+  have b := UInt8.toNat_lt (h.getD ((h.getLastD 0).toNat % 16 + 1) 0)
+  have c := UInt8.toNat_lt (h.getD ((h.getLastD 0).toNat % 16 + 2) 0)
+  have d := UInt8.toNat_lt (h.getD ((h.getLastD 0).toNat % 16 + 3) 0)
+  omega
+
+/-- **RFC 6238 end to end, over any HMAC of at least 20 bytes**: with `T = ⌊time / period⌋`,
+    `hm = HMAC(secret, T as 8 bytes big endian)` and `off = low nibble of hm's last byte`, the string
+    `value_at` returns has exactly `digits` decimal digits and reads as
+    `(hm[off..off+4] big endian mod 2^31) mod 10^digits` -/
+theorem C19_rfc6238 (H : Hmacs) (alg : Alg) (secret : Bytes) (period digits time : Nat)
+    (hp : 1 ≤ period) (hd : 1 ≤ digits) (hd' : digits < 20)
+    (hl : 20 ≤ (H.run alg secret (counterBytes (time / period))).length) :
+    ∃ cs : List Char, (valueAt H alg secret period digits time).1 = .code cs
+      ∧ cs.length = digits ∧ cs.all Char.isDigit = true
+      ∧ beVal (counterBytes (time / period)) = (time / period) % 2 ^ 64
+      ∧ numVal cs =
+          (beVal (((H.run alg secret (counterBytes (time / period))).drop
+              (((H.run alg secret (counterBytes (time / period))).getLastD 0).toNat % 16)).take 4)
+            % 2 ^ 31) % 10 ^ digits := by
+  obtain ⟨cs, h1, h2⟩ := C19_code_value H alg secret period digits time hp hd hd'
+  obtain ⟨cs', h1', h3, h4, _⟩ := value_ok H alg secret period digits time hp hd hd'
+  have e : cs' = cs := by rw [h1] at h1'; injection h1' with h; exact h.symm
+  subst e
+  exact ⟨cs', h1, h3, h4, counterBytes_value _, by rw [h2, dynTrunc_spec _ hl]⟩
+
 /-! Non-vacuity: a concrete code (RFC 4226 appendix D style) -/
 example : numVal ['0', '8', '1', '8', '0', '4'] = 81804 := by decide
 example : beVal (counterBytes 59) = 59 := by decide
